@@ -570,7 +570,7 @@ func ruleC18(c *Ctx) {
 	c.rule("C18-R1", "ID = constant prefix starting with a letter or '_' + (*UUID).String() of a uuid.NewV4() called in the same builder activation; exactly one ID attribute per message")
 	c.rule("C18-R2", "NewV4 fills all 16 bytes of a fresh array from crypto/rand.Read; a read error is fatal (panic), never ignored; the uuid package imports no other randomness source")
 	c.rule("C18-R3", "version / variant transforms evaluated over all 256 byte values: byte 6 -> 0100xxxx, byte 8 -> 10xxxxxx with the other bits preserved; no other byte is written after the read")
-	c.rule("C18-R4", "String(): constant format of five %x verbs separated by '-' over u[0:4], u[4:6], u[6:8], u[8:10], u[10:16]")
+	c.rule("C18-R4", "String(): the returned text is the layout hex(u[0:4]) '-' hex(u[4:6]) '-' hex(u[6:8]) '-' hex(u[8:10]) '-' hex(u[10:16]) in lower-case hex, produced by Sprintf(%x…), hex.Encode into a fully covered buffer, or hex.EncodeToString concatenation")
 	n := 0
 	for _, ds := range docSpecs {
 		res := c.kernel(ds.Fn, builderInline...)
@@ -722,51 +722,251 @@ func ruleC18(c *Ctx) {
 			c.check(!bad, "C18-R2", "uuid", "import "+imp, "-", "allowed", "package uuid imports "+imp+": a non-cryptographic or guessable entropy source is in reach")
 		}
 	}
-	// R4
+	// R4: the returned text as a layout of lower-case hex groups of u and literal bytes, whatever produces it
 	st := c.kernel("uuid.(*UUID).String", "*")
 	if st != nil {
 		fname := shortFn(st.Root)
+		want := "hex(u[0:4]) '-' hex(u[4:6]) '-' hex(u[6:8]) '-' hex(u[8:10]) '-' hex(u[10:16])"
 		for _, t := range st.Terms {
-			cv, ok := t.Vals[0].(*CallV)
-			if !ok || cv.Callee != "fmt.Sprintf" {
-				c.bad("C18-R4", fname, "String() is a constant Sprintf", c.P.InstrPos(t.Instr), "returns "+ap(t.Vals[0]))
+			lay, why := uuidLayout(t, "$"+st.Root.Params[0].Name())
+			if why != "" {
+				c.bad("C18-R4", fname, "String() layout is recognised", c.P.InstrPos(t.Instr), "String() returns "+ap(t.Vals[0])+": "+why)
 				continue
 			}
-			f, _ := constString(cv.Args[0])
-			c.check(f == "%x-%x-%x-%x-%x", "C18-R4", fname, "format", c.P.InstrPos(t.Instr), f, "format is "+fmt.Sprintf("%q", f)+", want lower-case hex groups %x-%x-%x-%x-%x")
-			// operands: varargs array entries
-			bounds := [][2]int64{{0, 4}, {4, 6}, {6, 8}, {8, 10}, {10, 16}}
-			okB := false
-			if sl, ok := cv.Args[1].(*SliceV); ok {
-				if arr, ok := sl.X.(*AllocV); ok {
-					okB = true
-					for i, b := range bounds {
-						cl, ok := t.St.heap[mkIndexAddr(arr, intV(int64(i)), nil).Key()]
-						if !ok {
-							okB = false
-							break
-						}
-						s, ok := stripIface(cl.val).(*SliceV)
-						if !ok || ap(s.X) != "$u" {
-							okB = false
-							break
-						}
-						lo, hi := int64(0), int64(16)
-						if s.Lo != nil {
-							lo, _ = constInt(s.Lo)
-						}
-						if s.Hi != nil {
-							hi, _ = constInt(s.Hi)
-						}
-						if lo != b[0] || hi != b[1] {
-							okB = false
-						}
-					}
-				}
-			}
-			c.check(okB, "C18-R4", fname, "groups 8-4-4-4-12 cover u[0:16]", c.P.InstrPos(t.Instr), "u[:4], u[4:6], u[6:8], u[8:10], u[10:]", "the five groups do not partition the 16 bytes as 4-2-2-2-6")
+			c.check(lay == want, "C18-R4", fname, "groups 8-4-4-4-12 cover u[0:16]", c.P.InstrPos(t.Instr), want, "String() renders "+lay+", want "+want)
 		}
 	}
+}
+
+type laySeg struct {
+	lit    bool
+	ch     byte
+	lo, hi int64
+}
+
+func renderLayout(segs []laySeg) string {
+	// merge contiguous hex groups
+	var out []laySeg
+	for _, s := range segs {
+		if n := len(out); n > 0 && !s.lit && !out[n-1].lit && out[n-1].hi == s.lo {
+			out[n-1].hi = s.hi
+			continue
+		}
+		out = append(out, s)
+	}
+	parts := make([]string, len(out))
+	for i, s := range out {
+		if s.lit {
+			parts[i] = fmt.Sprintf("%q", rune(s.ch))
+			parts[i] = "'" + strings.Trim(parts[i], "'") + "'"
+		} else {
+			parts[i] = fmt.Sprintf("hex(u[%d:%d])", s.lo, s.hi)
+		}
+	}
+	return strings.Join(parts, " ")
+}
+
+// sliceOfU: v is u[lo:hi] of the receiver array (16 bytes).
+func sliceOfU(v Val, recv string) (int64, int64, bool) {
+	s, ok := stripIface(v).(*SliceV)
+	if !ok || ap(s.X) != recv {
+		return 0, 0, false
+	}
+	lo, hi := int64(0), int64(16)
+	if s.Lo != nil {
+		k, isC := constInt(s.Lo)
+		if !isC {
+			return 0, 0, false
+		}
+		lo = k
+	}
+	if s.Hi != nil {
+		k, isC := constInt(s.Hi)
+		if !isC {
+			return 0, 0, false
+		}
+		hi = k
+	}
+	return lo, hi, lo >= 0 && lo <= hi && hi <= 16
+}
+
+// uuidLayout recognises three producers of the canonical text: fmt.Sprintf with a constant format of %x verbs and
+// literal bytes over slices of u; string(buf[:]) of a local byte array filled by hex.Encode(buf[a:b], u[c:d]) and
+// constant byte stores covering every position exactly once; a concatenation of hex.EncodeToString(u[c:d]) and
+// constant strings.
+func uuidLayout(t *Terminal, recv string) (string, string) {
+	v := t.Vals[0]
+	switch x := v.(type) {
+	case *CallV:
+		if x.Callee != "fmt.Sprintf" {
+			break
+		}
+		f, ok := constString(x.Args[0])
+		if !ok {
+			return "", "format is not a constant"
+		}
+		var args []Val
+		if sl, ok := x.Args[1].(*SliceV); ok {
+			if arr, ok := sl.X.(*AllocV); ok {
+				for i := 0; ; i++ {
+					cl, ok := t.St.heap[mkIndexAddr(arr, intV(int64(i)), nil).Key()]
+					if !ok {
+						break
+					}
+					args = append(args, cl.val)
+				}
+			}
+		}
+		var segs []laySeg
+		ai := 0
+		for i := 0; i < len(f); i++ {
+			if f[i] != '%' {
+				segs = append(segs, laySeg{lit: true, ch: f[i]})
+				continue
+			}
+			if i+1 >= len(f) || f[i+1] != 'x' {
+				return "", "format verb other than %x in " + fmt.Sprintf("%q", f)
+			}
+			i++
+			if ai >= len(args) {
+				return "", "more verbs than operands"
+			}
+			lo, hi, ok := sliceOfU(args[ai], recv)
+			if !ok {
+				return "", "operand " + ap(args[ai]) + " is not a constant slice of the UUID"
+			}
+			ai++
+			segs = append(segs, laySeg{lo: lo, hi: hi})
+		}
+		if ai != len(args) {
+			return "", "operands left over"
+		}
+		return renderLayout(segs), ""
+	case *ConvV:
+		sl, ok := x.X.(*SliceV)
+		if !ok {
+			break
+		}
+		buf, ok := sl.X.(*AllocV)
+		if !ok || sl.Lo != nil && !isConstInt(sl.Lo, 0) {
+			break
+		}
+		pt, ok := buf.Type().Underlying().(*types.Pointer)
+		if !ok {
+			break
+		}
+		arr, ok := pt.Elem().Underlying().(*types.Array)
+		if !ok {
+			break
+		}
+		n := arr.Len()
+		if sl.Hi != nil {
+			k, isC := constInt(sl.Hi)
+			if !isC {
+				break
+			}
+			n = k
+		}
+		pos := make([]*laySeg, n)
+		put := func(i int64, s laySeg) string {
+			if i < 0 || i >= n {
+				return "write outside the converted range"
+			}
+			if pos[i] != nil {
+				return fmt.Sprintf("position %d written twice", i)
+			}
+			pos[i] = &s
+			return ""
+		}
+		for _, e := range t.St.events {
+			switch {
+			case e.Kind == EvStore:
+				ia, ok := e.Addr.(*IndexAddrV)
+				if !ok || ia.X.Key() != buf.Key() {
+					continue
+				}
+				k, isC := constInt(ia.I)
+				ch, isB := constInt(e.Val)
+				if !isC || !isB {
+					return "", "non-constant byte store into the buffer"
+				}
+				if w := put(k, laySeg{lit: true, ch: byte(ch)}); w != "" {
+					return "", w
+				}
+			case e.Kind == EvCall && e.Callee == "encoding/hex.Encode":
+				d, ok := e.Args[0].(*SliceV)
+				if !ok || d.X.Key() != buf.Key() {
+					continue
+				}
+				a, b := int64(0), arr.Len()
+				if d.Lo != nil {
+					a, _ = constInt(d.Lo)
+				}
+				if d.Hi != nil {
+					b, _ = constInt(d.Hi)
+				}
+				lo, hi, ok := sliceOfU(e.Args[1], recv)
+				if !ok {
+					return "", "hex.Encode source " + ap(e.Args[1]) + " is not a constant slice of the UUID"
+				}
+				if b-a != 2*(hi-lo) {
+					return "", fmt.Sprintf("hex.Encode of %d bytes into %d positions", hi-lo, b-a)
+				}
+				for i := int64(0); i < hi-lo; i++ {
+					if w := put(a+2*i, laySeg{lo: lo + i, hi: lo + i + 1}); w != "" {
+						return "", w
+					}
+					if w := put(a+2*i+1, laySeg{lit: true, ch: 0}); w != "" { // second digit of the same byte
+						return "", w
+					}
+				}
+			case e.Kind == EvCall && directArg(e, buf.Key()) && e.Callee != "encoding/hex.Encode":
+				return "", "buffer also handed to " + shortName(e.Callee)
+			}
+		}
+		var segs []laySeg
+		for i, s := range pos {
+			if s == nil {
+				return "", fmt.Sprintf("position %d of the buffer is never written", i)
+			}
+			if s.lit && s.ch == 0 {
+				continue
+			}
+			segs = append(segs, *s)
+		}
+		return renderLayout(segs), ""
+	case *BinV:
+		var segs []laySeg
+		var walk func(v Val) string
+		walk = func(v Val) string {
+			if b, ok := v.(*BinV); ok && b.Op == token.ADD {
+				if w := walk(b.X); w != "" {
+					return w
+				}
+				return walk(b.Y)
+			}
+			if s, ok := constString(v); ok {
+				for i := 0; i < len(s); i++ {
+					segs = append(segs, laySeg{lit: true, ch: s[i]})
+				}
+				return ""
+			}
+			if cv, ok := v.(*CallV); ok && cv.Callee == "encoding/hex.EncodeToString" {
+				lo, hi, ok := sliceOfU(cv.Args[0], recv)
+				if !ok {
+					return "operand " + ap(cv.Args[0]) + " is not a constant slice of the UUID"
+				}
+				segs = append(segs, laySeg{lo: lo, hi: hi})
+				return ""
+			}
+			return "unrecognised part " + ap(v)
+		}
+		if w := walk(x); w != "" {
+			return "", w
+		}
+		return renderLayout(segs), ""
+	}
+	return "", "not one of the recognised producers (Sprintf of %x groups, hex.Encode into a buffer, hex.EncodeToString concatenation)"
 }
 
 // ---------------------------------------------------------------- C16
@@ -778,9 +978,10 @@ type postSpec struct {
 }
 
 var postSpecs = []postSpec{
-	{"(*SAMLServiceProvider).buildAuthBodyPostFromDocument", "SP.IdentityProviderSSOURL", "SAMLRequest", "SAMLRequest"},
-	{"(*SAMLServiceProvider).buildLogoutBodyPostFromDocument", "SP.IdentityProviderSLOURL", "SAMLRequest", "SAMLRequest"},
-	{"(*SAMLServiceProvider).buildLogoutResponseBodyPostFromDocument", "SP.IdentityProviderSLOURL", "SAMLResponse", "SAMLResponse"},
+	// rooted at the exported API (relay state = parameter 1, document = parameter 2): unexported helpers are inlined
+	{"(*SAMLServiceProvider).BuildAuthBodyPostFromDocument", "SP.IdentityProviderSSOURL", "SAMLRequest", "SAMLRequest"},
+	{"(*SAMLServiceProvider).BuildLogoutBodyPostFromDocument", "SP.IdentityProviderSLOURL", "SAMLRequest", "SAMLRequest"},
+	{"(*SAMLServiceProvider).BuildLogoutResponseBodyPostFromDocument", "SP.IdentityProviderSLOURL", "SAMLResponse", "SAMLResponse"},
 }
 
 func templateFields(src string) ([]string, error) {
@@ -838,6 +1039,12 @@ func ruleC16(c *Ctx) {
 		}
 		fname := shortFn(res.Root)
 		n := 0
+		if len(res.Root.Params) != 3 {
+			c.bad("anchor", fname, "UNRESOLVED-ANCHOR", "-", "expected (sp, relayState, doc) parameters")
+			continue
+		}
+		relay := "$" + res.Root.Params[1].Name()
+		docP := "$" + res.Root.Params[2].Name()
 		for _, t := range res.Terms {
 			if !t.accepting(res.Root) {
 				continue
@@ -845,8 +1052,8 @@ func ruleC16(c *Ctx) {
 			n++
 			pos := c.P.InstrPos(t.Instr)
 			atoms := t.atoms()
-			withRelay := atoms[`!($relayState == "")`]
-			if !withRelay && !atoms[`$relayState == ""`] {
+			withRelay := atoms[`!(`+relay+` == "")`]
+			if !withRelay && !atoms[relay+` == ""`] {
 				c.bad("C16-R2", fname, "RelayState input decided by relayState != \"\"", pos, "path does not test relayState")
 				continue
 			}
@@ -889,6 +1096,9 @@ func ruleC16(c *Ctx) {
 					src, srcOK = constString(p.Args[1])
 				}
 			}
+			if l, isLoad := exec.Args[0].(*LoadV); isLoad && !srcOK {
+				_ = l
+			}
 			if !srcOK {
 				c.bad("C16-R2", fname, "template source is a constant ["+label+"]", c.P.InstrPos(exec.Instr), "the template text is not a compile-time constant (configured or caller data concatenated into the template is never escaped): "+ap(exec.Args[0]))
 				continue
@@ -898,9 +1108,13 @@ func ruleC16(c *Ctx) {
 				c.bad("C16-R2", fname, "template parses ["+label+"]", c.P.InstrPos(exec.Instr), "template does not parse: "+err.Error())
 				continue
 			}
-			// data struct
+			// data struct (by value or through a pointer)
 			data := stripIface(exec.Args[2])
-			dst, _ := data.Type().Underlying().(*types.Struct)
+			dataT := data.Type()
+			if pt, isPtr := dataT.Underlying().(*types.Pointer); isPtr {
+				dataT = pt.Elem()
+			}
+			dst, _ := dataT.Underlying().(*types.Struct)
 			if dst == nil {
 				c.bad("C16-R2", fname, "template data is a struct ["+label+"]", c.P.InstrPos(exec.Instr), "data is "+typeStr(data.Type()))
 				continue
@@ -916,7 +1130,7 @@ func ruleC16(c *Ctx) {
 					continue
 				}
 				seen[f] = true
-				idx := fieldIndex(data.Type(), f)
+				idx := fieldIndex(dataT, f)
 				if idx < 0 {
 					c.bad("C16-R2", fname, "template field ."+f+" exists in the data ["+label+"]", c.P.InstrPos(exec.Instr), "template references ."+f+" which the data struct lacks: Execute fails at run time on this path")
 					continue
@@ -947,6 +1161,11 @@ func ruleC16(c *Ctx) {
 						return ap(v)
 					}
 				}
+				if _, isPtr := data.Type().Underlying().(*types.Pointer); isPtr {
+					if v, ok := t.finalField(data, f); ok {
+						return ap(v)
+					}
+				}
 				if sl, ok := data.(*StructLitV); ok {
 					if v, ok := sl.Fields[f]; ok {
 						return ap(v)
@@ -954,11 +1173,11 @@ func ruleC16(c *Ctx) {
 				}
 				return "<unset>"
 			}
-			b64 := "(*encoding/base64.Encoding).EncodeToString(encoding/base64.StdEncoding, (*etree.Document).WriteToBytes($doc)#0)"
+			b64 := "(*encoding/base64.Encoding).EncodeToString(encoding/base64.StdEncoding, (*etree.Document).WriteToBytes(" + docP + ")#0)"
 			c.check(get("URL") == ps.URLField, "C16-R3", fname, ".URL <- "+ps.URLField+" ["+label+"]", pos, "wired", ".URL is "+get("URL")+", want "+ps.URLField)
 			c.check(get(ps.B64Field) == b64, "C16-R3", fname, "."+ps.B64Field+" <- base64(document) ["+label+"]", pos, "wired", "."+ps.B64Field+" is "+get(ps.B64Field))
 			if withRelay {
-				c.check(get("RelayState") == "$relayState", "C16-R3", fname, ".RelayState <- relayState ["+label+"]", pos, "wired", ".RelayState is "+get("RelayState"))
+				c.check(get("RelayState") == relay, "C16-R3", fname, ".RelayState <- relayState ["+label+"]", pos, "wired", ".RelayState is "+get("RelayState"))
 			}
 		}
 		c.count("C16/accepting "+fname, n)
